@@ -1134,7 +1134,7 @@ func vC04Large(c *vCtx, sizes []int) {
 func init() {
 	vRegister(&vCheck{
 		ID: "C04", Level: "model_checking", Engine: "histmc",
-		Rule:        "BFS over Add(fresh id, one of 10 documents mixing string/bool/int/float fields, negative/zero/large ints, two-decimal floats that are not exactly representable, empty string, ':' in a value, absent fields)/Remove histories on the real RoaringMetadataIndex; in every reached state: every single filter (field x 11 operators x operand alphabet incl. absent operands and fields) and its Not(), the empty filter list, and every filter tree over a basis of up to 6 filters with pairwise distinct answers (1-2 groups x <=3 filters, 3 groups x <=2 filters, 1 group x 4 filters, WithFilters) are compared with direct predicate evaluation over the model's live documents. Non-trivial = distinct (state, filter/tree) whose expected answer is a non-empty strict subset of the live documents.",
+		Rule:        "BFS over Add(fresh id, one of 10 documents mixing string/bool/int/float fields, negative/zero/large ints, two-decimal floats that are not exactly representable, empty string, ':' in a value, absent fields)/Remove histories on the real RoaringMetadataIndex; in every reached state: every single filter (field x 11 operators x operand alphabet incl. absent operands and fields) and its Not(), the empty filter list, and every filter tree over a basis of up to 6 filters with pairwise distinct answers (1-2 groups x <=3 filters, 3 groups x <=2 filters, 1 group x 4 filters, WithFilters) are compared with direct predicate evaluation over the model's live documents. Non-trivial = distinct (state, filter/tree) whose expected answer is a non-empty strict subset of the live documents. Prepared objects: in every checked transition one search object per single filter (every fifth also as a one-filter group) is configured before the operation and executed for the first time after it; it must answer like an object configured afterwards. Re-add histories: ids 1..2, an id that is not live may be added again with any of 4 documents (numeric fields present / absent / other value), depth 7 with one id, 5 with two.",
 		Assumptions: []string{"floats compared after rounding to the nearest hundredth (alphabet avoids values where rounding and truncation differ in exact arithmetic)", "not judged (must not panic): ordering operators on non-numeric or never-indexed fields, in/not_in on numeric fields, operands of the wrong type", "bitmap and BSI libraries trusted as libraries; their use by comet is what is checked"},
 		Shards: func(tier string) []vShard {
 			var sh []vShard
